@@ -481,8 +481,12 @@ func (b *tb) condition(parent antlr.ParserRuleContext, cd dCond, idx int) *parse
 			tt = parser.OpenFGAParserLOGICAL_AND
 		case "==":
 			tt = parser.OpenFGAParserEQUALS
-		case "1":
+		case "1", "0", "2":
 			tt = parser.OpenFGAParserNUM_INT
+		case "%":
+			tt = parser.OpenFGAParserPERCENT
+		case "\"100%\"", "\"%s%d\"":
+			tt = parser.OpenFGAParserSTRING
 		case "\n  ":
 			tt = parser.OpenFGAParserNEWLINE
 		}
